@@ -795,7 +795,11 @@ func ruleBodyReturn(p *Program, r *Reporter) {
 				// part of the compiler handed back, from each successful return
 				// of that part
 				bad := token.NoPos
-				walkBack := func(wf *ssa.Function, wb *ssa.BasicBlock, widx int, endPos token.Pos) {
+				var walkBack func(wf *ssa.Function, wb *ssa.BasicBlock, widx int, endPos token.Pos)
+				// the function literals handed to a part of the compiler that calls
+				// its parameter (`withFreshBuffer(func() error { … })`)
+				var workHandedIn func(param *ssa.Parameter) []*ssa.Function
+				walkBack = func(wf *ssa.Function, wb *ssa.BasicBlock, widx int, endPos token.Pos) {
 					wemits := map[ssa.Instruction]string{}
 					for _, es := range emitSites(p, a, wf) {
 						wemits[es.call] = es.op
@@ -810,6 +814,27 @@ func ruleBodyReturn(p *Program, r *Reporter) {
 							in := bl.Instrs[j]
 							if op, ok := wemits[in]; ok && op == "OpReturn" {
 								return
+							}
+							// the work that was handed in runs here: every successful
+							// end of it must have emitted the return
+							if c, ok := in.(*ssa.Call); ok && c.Call.StaticCallee() == nil && !c.Call.IsInvoke() {
+								if prm, ok := c.Call.Value.(*ssa.Parameter); ok && workHandedIn != nil {
+									if lits := workHandedIn(prm); len(lits) > 0 {
+										for _, lit := range lits {
+											nret := 0
+											for _, lb := range lit.Blocks {
+												if ret, ok := terminator(lb).(*ssa.Return); ok && isSuccessReturn(ret) {
+													nret++
+													walkBack(lit, lb, len(lb.Instrs)-2, ret.Pos())
+												}
+											}
+											if nret == 0 && !bad.IsValid() {
+												bad = c.Pos()
+											}
+										}
+										return
+									}
+								}
 							}
 							if c, ok := in.(*ssa.Call); ok && c.Call.StaticCallee() != nil && p.Reachable(c.Call.StaticCallee())[a.compile] && len(c.Call.Args) >= 2 && isASTish(c.Call.Args[1].Type()) {
 								bad = c.Pos()
@@ -864,9 +889,39 @@ func ruleBodyReturn(p *Program, r *Reporter) {
 					}
 				}
 				if helper != nil {
+					workHandedIn = func(prm *ssa.Parameter) []*ssa.Function {
+						if prm.Parent() != helper {
+							return nil
+						}
+						k := -1
+						for i, q := range helper.Params {
+							if q == prm {
+								k = i
+							}
+						}
+						var out []*ssa.Function
+						for _, site := range staticCallSites(p, helper) {
+							args := site.Common().Args
+							if k < 0 || k >= len(args) {
+								return nil
+							}
+							mc, ok := args[k].(*ssa.MakeClosure)
+							if !ok {
+								return nil
+							}
+							lit, ok := mc.Fn.(*ssa.Function)
+							if !ok {
+								return nil
+							}
+							out = append(out, lit)
+						}
+						return out
+					}
 					nret := 0
 					for _, hb := range helper.Blocks {
-						if ret, ok := terminator(hb).(*ssa.Return); ok && isSuccessReturn(ret) {
+						// (a return that forwards the error of the work it was handed
+						// succeeds whenever that work did)
+						if ret, ok := terminator(hb).(*ssa.Return); ok && (isSuccessReturn(ret) || mayBeSuccessReturn(ret)) {
 							nret++
 							walkBack(helper, hb, len(hb.Instrs)-2, ret.Pos())
 						}
